@@ -872,6 +872,9 @@ func (e *AnimEncoder) encodeSubFrame(currCanvas *image.NRGBA, durMS int) error {
 	}
 
 	subImgNone := extractSubImage(currCanvas, rectNone)
+	if blendNone == BlendAlpha {
+		clearBlendedTranslucent(subImgNone)
+	}
 	bsNone, err := e.encodeFrame(subImgNone, e.opts.Lossless, e.opts.Quality)
 	if err != nil {
 		return fmt.Errorf("animation: encoding sub-frame (dispose-none): %w", err)
@@ -904,6 +907,9 @@ func (e *AnimEncoder) encodeSubFrame(currCanvas *image.NRGBA, durMS int) error {
 	}
 
 	subImgBG := extractSubImage(currCanvas, rectBG)
+	if blendBG == BlendAlpha {
+		clearBlendedTranslucent(subImgBG)
+	}
 	bsBG, err = e.encodeFrame(subImgBG, e.opts.Lossless, e.opts.Quality)
 	if err != nil {
 		// If encoding the BG candidate fails, fall through with DISPOSE_NONE.
@@ -956,6 +962,20 @@ func (e *AnimEncoder) encodeSubFrame(currCanvas *image.NRGBA, durMS int) error {
 	e.prevMuxIndex = e.muxer.NumFrames() - 1
 	e.frameCount++
 	return nil
+}
+
+// clearBlendedTranslucent makes the translucent pixels (0 < alpha < 255) of a
+// sub-frame that will be alpha-blended fully transparent. The blending check
+// only lets such a pixel through when the canvas underneath already holds the
+// same (or, for lossy, a similar) pixel; blending it onto itself would raise
+// its alpha (128 over 128 gives 192), whereas a transparent pixel leaves the
+// canvas as it is. This is what libwebp's IncreaseTransparency does.
+func clearBlendedTranslucent(sub *image.NRGBA) {
+	for i := 3; i < len(sub.Pix); i += 4 {
+		if a := sub.Pix[i]; a != 0 && a != 0xFF {
+			sub.Pix[i-3], sub.Pix[i-2], sub.Pix[i-1], sub.Pix[i] = 0, 0, 0, 0
+		}
+	}
 }
 
 // isCanvasIdentical returns true if every pixel in a and b is identical.
